@@ -42,7 +42,7 @@ PROPERTIES = {
     'C15': dict(level='proof', trusted=[A_PY, A_REAL, A_TRIG, A_NUMPY, A_UNITS, 'copy.deepcopy returns a structurally equal, disjoint object graph',
                                         'assumed kernel contract (as C02) for the mask part of the translation clause'],
                 assumptions=[A_PY, A_REAL, A_TRIG, A_NUMPY, A_UNITS,
-                             'polygon membership under rotation and polygon mask values under translation depend on the crossing-number kernel itself and are not proved (vertex positions, box translation and mask shape are)',
+                             'polygon mask values under whole-pixel translation: proved through the translation invariance of the crossing parity and of the sampled fraction (lemmas by induction, contracts/k_kernels.py) together with the kernel contract in revealed form (FRAC = sampled fraction, discharged from the .pyx under C02); polygon membership under rotation is not proved (it is a topological fact about the even-odd rule, not a per-edge one): vertex positions are',
                              'regular polygons and compounds: rotate is covered through their components']),
     'C17': dict(level='proof', trusted=[A_PY, A_REAL, A_NUMPY, A_UNITS, 'astropy SkyCoord/Quantity type predicates (isscalar, ndim, unit.physical_type) as modelled in externals/'],
                 assumptions=[A_PY, A_REAL, A_NUMPY, A_UNITS,
